@@ -7,6 +7,7 @@ import (
 	"errors"
 	"io"
 	"net"
+	"os"
 	"syscall"
 	"time"
 )
@@ -33,6 +34,12 @@ type Script struct {
 	// CloseErr: the first Close closes the transport but reports an error, as a TLS
 	// connection does when its peer is gone and the close notification cannot be sent.
 	CloseErr bool `json:"close_err,omitempty"`
+	// TimeoutWriteAt: the j-th Write call (1-based) transfers only the first half of its
+	// bytes and reports a timeout - but only if the code under test has armed a write
+	// deadline on the connection (a deadline that was never set cannot expire).
+	TimeoutWriteAt int `json:"timeout_write_at,omitempty"`
+	// TimeoutReadAt: the j-th Read call reports a timeout, if a read deadline is armed.
+	TimeoutReadAt int `json:"timeout_read_at,omitempty"`
 }
 
 // Conn is a scripted net.Conn. It is used by exactly one goroutine.
@@ -53,6 +60,11 @@ type Conn struct {
 	ReadsAfterEnd int
 	ended         bool
 	Budget        *int // optional operation budget shared with the harness
+	rdArmed       bool // a read / write deadline is set
+	wdArmed       bool
+	readCalls     int
+	// TimedOut counts the timeouts that were injected.
+	TimedOut int
 }
 
 // OnNewConn is called whenever a scripted connection (a new case) is created.
@@ -80,6 +92,11 @@ func (c *Conn) Read(p []byte) (int, error) {
 	}
 	if len(p) == 0 {
 		return 0, nil
+	}
+	c.readCalls++
+	if c.rdArmed && c.S.TimeoutReadAt > 0 && c.readCalls == c.S.TimeoutReadAt {
+		c.TimedOut++
+		return 0, &net.OpError{Op: "read", Net: "tcp", Err: timeoutError{}}
 	}
 	if c.OnRead != nil {
 		c.OnRead(c.pos, c.pos >= len(c.S.Input))
@@ -125,6 +142,11 @@ func (c *Conn) Write(p []byte) (int, error) {
 		return 0, ErrClosed
 	}
 	c.Writes++
+	if c.wdArmed && c.S.TimeoutWriteAt > 0 && c.Writes == c.S.TimeoutWriteAt && len(p) > 1 {
+		c.TimedOut++
+		c.Out = append(c.Out, p[:len(p)/2]...)
+		return len(p) / 2, &net.OpError{Op: "write", Net: "tcp", Err: timeoutError{}}
+	}
 	if c.S.FailWriteFrom > 0 && c.Writes >= c.S.FailWriteFrom {
 		return 0, &net.OpError{Op: "write", Net: "tcp", Err: syscall.EPIPE}
 	}
@@ -155,11 +177,24 @@ type addr struct{}
 func (addr) Network() string { return "mem" }
 func (addr) String() string  { return "mem:0" }
 
-func (c *Conn) LocalAddr() net.Addr                { return addr{} }
-func (c *Conn) RemoteAddr() net.Addr               { return addr{} }
-func (c *Conn) SetDeadline(t time.Time) error      { return nil }
-func (c *Conn) SetReadDeadline(t time.Time) error  { return nil }
-func (c *Conn) SetWriteDeadline(t time.Time) error { return nil }
+func (c *Conn) LocalAddr() net.Addr  { return addr{} }
+func (c *Conn) RemoteAddr() net.Addr { return addr{} }
+func (c *Conn) SetDeadline(t time.Time) error {
+	c.rdArmed, c.wdArmed = !t.IsZero(), !t.IsZero()
+	return nil
+}
+func (c *Conn) SetReadDeadline(t time.Time) error  { c.rdArmed = !t.IsZero(); return nil }
+func (c *Conn) SetWriteDeadline(t time.Time) error { c.wdArmed = !t.IsZero(); return nil }
+
+// timeoutError is what a net.Conn reports when a deadline expires.
+type timeoutError struct{}
+
+func (timeoutError) Error() string   { return "i/o timeout" }
+func (timeoutError) Timeout() bool   { return true }
+func (timeoutError) Temporary() bool { return true }
+func (timeoutError) Is(target error) bool {
+	return target == os.ErrDeadlineExceeded
+}
 
 // ChunkReader adapts a Script to a plain io.Reader (parser-only checks).
 type ChunkReader struct {
